@@ -98,7 +98,7 @@ func FinishVoid(fns ...func()) {
 // ForEach 加工所有生成的元素，但并不输出。
 func ForEach(generate GenerateFunc, mapper ForEachFunc, opts ...Option) {
 	options := buildOptions(opts...)
-	panicChan := &onceChan{channel: make(chan any)}
+	panicChan := &onceChan{channel: make(chan any, 1)}
 	source := buildSource(generate, panicChan)
 	collector := make(chan any)
 	done := make(chan lang.PlaceholderType)
@@ -121,7 +121,13 @@ func ForEach(generate GenerateFunc, mapper ForEachFunc, opts ...Option) {
 			panic(v)
 		case _, ok := <-collector:
 			if !ok {
-				return
+				// 全部加工结束：此前写入的 panic 不能丢
+				select {
+				case v := <-panicChan.channel:
+					panic(v)
+				default:
+					return
+				}
 			}
 		}
 	}
@@ -141,14 +147,14 @@ func MapReduceVoid(generate GenerateFunc, mapper MapperFunc, reducer VoidReducer
 
 // MapReduce 加工所有生成的元素，并聚合后输出。
 func MapReduce(generate GenerateFunc, mapper MapperFunc, reducer ReducerFunc, opts ...Option) (any, error) {
-	panicChan := &onceChan{channel: make(chan any)}
+	panicChan := &onceChan{channel: make(chan any, 1)}
 	source := buildSource(generate, panicChan)
 	return mapReduceWithPanicChan(source, panicChan, mapper, reducer, opts...)
 }
 
 // MapReduceChan 加工所有给定的源数据，并聚合输出。
 func MapReduceChan(source <-chan any, mapper MapperFunc, reducer ReducerFunc, opts ...Option) (any, error) {
-	panicChan := &onceChan{channel: make(chan any)}
+	panicChan := &onceChan{channel: make(chan any, 1)}
 	return mapReduceWithPanicChan(source, panicChan, mapper, reducer, opts...)
 }
 
@@ -243,6 +249,14 @@ func mapReduceWithPanicChan(source <-chan any, panicChan *onceChan, mapper Mappe
 		drain(output)
 		panic(v)
 	case v, ok := <-output:
+		// 在输出之前写入的 panic 优先于聚合结果
+		select {
+		case p := <-panicChan.channel:
+			drain(output)
+			panic(p)
+		default:
+		}
+
 		if err := retErr.Load(); err != nil {
 			return nil, err
 		} else if ok {
@@ -342,14 +356,16 @@ func buildSource(generate GenerateFunc, panicChan *onceChan) chan any {
 	return source
 }
 
+// onceChan 的通道容量为 1：只保留第一个写入的值，写入永不阻塞
+// （调用方可能已经返回，不再有读取者）。
 type onceChan struct {
 	channel chan any
-	wrote   int32
 }
 
 func (c *onceChan) write(v any) {
-	if atomic.CompareAndSwapInt32(&c.wrote, 0, 1) {
-		c.channel <- v
+	select {
+	case c.channel <- v:
+	default:
 	}
 }
 
